@@ -24,7 +24,7 @@ def process(item):
     prop, v = item
     key = f"{prop}_{v}"
     r = load().get(key, {})
-    out = Path(f"/tmp/s/waveH/{prop}_out")
+    out = Path(f"/tmp/s/waveH/{prop}_out") if v in ("H1", "H2") else Path(f"/tmp/s/{prop}_out")
     if "verified" not in r:
         if not (out / f"patch_{v}.diff").exists():
             return key, None
@@ -37,7 +37,7 @@ def process(item):
             shutil.copy(out / f"patch_{v}.diff", d / "patch.diff"); shutil.copy(out / f"equiv_{v}.py", d / "equiv.py")
             meta = {}
             try:
-                for ch in json.loads((out / "meta_h.json").read_text()).get("changes", []):
+                for ch in json.loads((out / ("meta_h.json" if v in ("H1", "H2") else "meta_h2.json")).read_text()).get("changes", []):
                     if ch.get("name") == v: meta = ch
             except Exception: pass
             (d / "meta.json").write_text(json.dumps({"property": prop, "change": v, "kind": "behaviour-preserving refactoring",
@@ -50,7 +50,7 @@ def process(item):
 
 
 def main():
-    items = [(f"C{i:02d}", v) for i in range(1, 21) for v in ("H1", "H2")]
+    items = [(f"C{i:02d}", v) for i in range(1, 21) for v in ("H1", "H2", "H3", "H4")]
     if "refresh" in sys.argv:  # refresh Cxx ...: re-run the stored refactorings of these properties with the current checks
         props = [a for a in sys.argv[1:] if a.startswith("C") and len(a) == 3]
         res = load()
